@@ -500,6 +500,50 @@ def cdf_diag_identity(seed):
                 return ev, dict(what="SolveNewmark with a nonlinear term: the solution depends on the element type of the first value the user function returns "
                                      "(%s zeros while inactive vs float zeros)" % kind, matrices="diagonal" if nd_ == 1 else "full",
                                 max_difference=float(abs(so_.d - ref_.d).max()))
+    # residual-flexibility modes in the middle / listed out of order, with nonlinear terms: Newmark (diagonal and full) and SolveCDF give the same answer as the same
+    # system with the equations renumbered so that the rf modes come last in ascending order (a relabelling of the unknowns cannot change the solution)
+    m5, b5, k5 = np.array([2.0, 1.0, 3.0, 1.5, 2.5]), np.array([0.3, 0.0, 0.5, 0.0, 0.2]), np.array([80.0, 5000.0, 300.0, 7000.0, 150.0])
+    t5 = np.arange(0, 0.2, 0.002)
+    F5 = np.vstack([np.sin((7 + 3 * i_) * t5) * (1 + i_) for i_ in range(5)])
+    dyn, rfs = [0, 2, 4], [1, 3]
+    perm = dyn + rfs                                  # renumbered system: dynamic equations first, rf last
+
+    def bump5(d, j, h, kc=None):
+        return -kc * np.maximum(d[:, j], 0.0) ** 2
+
+    def run5(cls_, full, rfarg, order5, nl):
+        P = order5
+        mm, bb, kk = m5[P], b5[P], k5[P]
+        if full:
+            mm, bb, kk = np.diag(mm), np.diag(bb), np.diag(kk)
+            i0, i1 = P.index(0), P.index(2)
+            bb[i0, i1] = bb[i1, i0] = 0.05
+        ts_ = cls_(mm, bb, kk, 0.002, rf=rfarg)
+        if nl:
+            # the nonlinear functions and their transforms live in the space of the non-rf equations (in the order those equations have in this numbering)
+            nonrf = [e_ for e_ in P if e_ in dyn]
+            Tn_ = np.zeros((3, 2)); Tn_[nonrf.index(0), 0] = 1.0; Tn_[nonrf.index(4), 1] = 1.0
+            sel = [nonrf.index(0), nonrf.index(4)]
+            ts_.def_nonlin({"bump": ((lambda d, j, h, kc=None, sel=sel: -kc * np.maximum(d[sel, j], 0.0) ** 2), Tn_, dict(kc=300.0))})
+        so_ = ts_.tsolve(F5[P])
+        inv = np.argsort(P)
+        return so_.d[inv], so_.v[inv], so_.a[inv]
+    ident = list(range(5))
+    for cls_, nlset in ((ode.SolveNewmark, (False, True)), (ode.SolveCDF, (False,))):
+        for full in (False, True):
+            if cls_ is ode.SolveCDF and not full:
+                continue
+            for nl in nlset:
+                ref5 = run5(cls_, full, [3, 4], perm, nl)
+                for rfarg, ordering in (([1, 3], ident), ([3, 1], ident), (np.array([False, True, False, True, False]), ident), ([4, 3], perm)):
+                    # (the last one: a contiguous block of rf modes listed in descending order)
+                    got5 = run5(cls_, full, rfarg, ordering, nl)
+                    ev += 1
+                    sc5 = max(abs(ref5[0]).max(), 1e-12)
+                    if not all(np.allclose(g_, r_, rtol=1e-9, atol=1e-9 * sc5) for g_, r_ in zip(got5, ref5)):
+                        return ev, dict(what="%s with residual-flexibility modes given as %s%s differs from the same system renumbered with the rf modes last"
+                                        % (cls_.__name__, np.asarray(rfarg).tolist(), " and nonlinear terms" if nl else ""), matrices="full" if full else "diagonal",
+                                        max_difference=float(max(abs(g_ - r_).max() for g_, r_ in zip(got5, ref5))))
     r = [errs["newmark"][i] / errs["newmark"][i + 1] for i in range(2)]
     if not all(x > 1.7 for x in r):
         return ev, dict(what="SolveNewmark error does not shrink under step halving", ratios=r, errors=errs["newmark"])
